@@ -38,7 +38,7 @@ func compareBehaviours(c *Ctx, b *mgBatch, optimize bool, what string) {
 			case res.Panic != "":
 				bad = "Go panic escaped: " + res.Panic
 			case res.Budget:
-				fatalf("program %s did not finish within the instruction budget (generator problem)\n%s", p.ID, src)
+				bad = "did not finish within 400000 VM instructions (the specification's run of the same program ends after a few thousand steps)"
 			case res.LoadErr:
 				bad = "program does not load: " + firstLine(res.ErrString())
 			case res.Stdout != want:
@@ -85,6 +85,7 @@ func checkC01(c *Ctx) {
 	calibrateGo(c, b, "c01")
 	compareBehaviours(c, b, true, "generated")
 	probeProgram(c, "semicolon-insertion", probeSemicolon, "m 1\nend\n")
+	probeProgram(c, "nil-receiver", probeNilReceiver, "called true\nend\n")
 	if len(progs) > 0 {
 		p := progs[len(progs)/2]
 		c.sample(map[string]any{"program": p.ID, "source": clip(b.Sources[p.ID], 1500), "behaviours": len(b.Behs[p.ID])})
@@ -99,6 +100,23 @@ func probeProgram(c *Ctx, key, src, want string) {
 		c.violate(key, fmt.Sprintf("recorded input still fails: got %q (%s) want %q", clip(res.Stdout, 120), firstLine(res.ErrString()), want), map[string]any{"source": src, "expected_output": want})
 	}
 }
+
+const probeNilReceiver = `package main
+
+type T struct {
+	X int
+}
+
+func (t *T) M() {
+	println("called", t == nil)
+}
+
+func Main() {
+	var p *T
+	p.M()
+	println("end")
+}
+`
 
 const probeSemicolon = `package main
 
